@@ -235,8 +235,9 @@ class Tracker:
             return [f for f in recv.get(k, {"frames": []})["frames"] if "undecodable" not in f and fname(f) == "EVENT"
                     and fget(f, "kind") == kind and fget(f, "channel") == ch and fget(f, "nid") == nid]
         mod = self.case["cfg"]["mod"]
-        if mod and "fwd-event" in mod["ops"]:
-            return      # event forwarding may be scripted to fail; the model correspondence covers those runs
+        op = self.case["ops"][t]
+        failing = bool(mod and "fwd-event" in mod["ops"] and "err" in (op.get("script") or []))
+        tagp = "K18a " if failing else ""
         for (ch, who, k0) in joins:
             audience = members_before.get(ch, set()) | {who}
             for k in live_before:
@@ -246,7 +247,7 @@ class Tracker:
                 if k in recv and recv[k].get("closed"):
                     continue
                 if n != want:
-                    self.viol.append(("C18", f"join of {who} in {ch}: conn {k} ({u}) saw {n} MEMBER_JOINED events, expected {want}", t))
+                    self.viol.append(("C18", tagp + f"join of {who} in {ch}: conn {k} ({u}) saw {n} MEMBER_JOINED events, expected {want}", t))
         for (ch, who, k0) in leaves:
             audience = members_before.get(ch, set())
             for k in live_before:
@@ -256,7 +257,7 @@ class Tracker:
                 if k in recv and recv[k].get("closed"):
                     continue
                 if n != want:
-                    self.viol.append(("C18", f"leave of {who} from {ch}: conn {k} ({u}) saw {n} MEMBER_LEFT events, expected {want}", t))
+                    self.viol.append(("C18", tagp + f"leave of {who} from {ch}: conn {k} ({u}) saw {n} MEMBER_LEFT events, expected {want}", t))
 
 
 def audit_ops(gen):
